@@ -206,6 +206,23 @@ IsScalarNode(pl, i) ==
     [] n.op = "bin" -> IsScalarNode(pl, n.args[1]) /\ IsScalarNode(pl, n.args[2])
     [] OTHER -> FALSE
 
+\* Step invariance as the reference engine's PreprocessExpr decides it.  A step-invariant
+\* subtree is evaluated once, at the start of the window.  The only place where this differs
+\* from per-step evaluation is the PARAMETER of an aggregation whose operand is step invariant:
+\* PreprocessExpr does not look at the parameter, so it is evaluated at the start as well.
+UnsafeFns == {"time", "timestamp", "days_in_month", "day_of_month", "day_of_week", "day_of_year", "hour", "minute",
+              "month", "year", "predict_linear"}
+RECURSIVE Inv(_, _)
+Inv(pl, i) ==
+  LET n == pl[i] IN
+  CASE n.op \in {"num", "str"} -> TRUE
+    [] n.op \in {"sel", "rfn"} -> n.atk # "none"
+    [] n.op \in {"paren", "neg"} -> Inv(pl, n.args[1])
+    [] n.op = "agg" -> Inv(pl, n.args[Len(n.args)])
+    [] n.op = "bin" -> Inv(pl, n.args[1]) /\ Inv(pl, n.args[2])
+    [] n.op = "fn"  -> n.fn \notin UnsafeFns /\ \A k \in 1..Len(n.args) : Inv(pl, n.args[k])
+    [] OTHER -> FALSE
+
 NumVal(n) == IF n.vs = "" THEN I(n.v)
              ELSE CASE n.vs = "NaN" -> NaNV [] n.vs = "Inf" -> PInf [] n.vs = "-Inf" -> NInf [] OTHER -> Opaque
 
@@ -348,7 +365,7 @@ EvalAgg(sc, i, t) ==
   LET pl  == sc.plan
       n   == pl[i]
       hasP == Len(n.args) = 2
-      p   == IF hasP THEN Eval(sc, n.args[1], t) ELSE ScalarRes(I(0))
+      p   == IF hasP THEN Eval(sc, n.args[1], IF Inv(pl, n.args[Len(n.args)]) THEN sc.start ELSE t) ELSE ScalarRes(I(0))
       a   == Eval(sc, n.args[Len(n.args)], t)
       pv  == SVal(p)
       keys == {GroupKey(n, a.vec[x].ls) : x \in 1..Len(a.vec)}
@@ -452,6 +469,26 @@ EvalBin(sc, i, t) ==
         ELSE IF dupOne THEN Res(why \cup {IF dupPartner THEN "dupone-partner" ELSE "dupone-nopartner"}, unk, <<>>)
         ELSE Res(why \cup (IF multi THEN {IF n.card = "1:1" THEN "multi-1to1" ELSE "multi-group"} ELSE {}) \cup DupLS(v),
                  unk \/ anyU, v)
+
+\* ------------------------------------------------------------------ order dependence
+\* With a tie at the cut of a topk/bottomk group (or values the specification does not know) the
+\* reference result depends on the storage's series order and is not a function of the data:
+\* such scenarios are excluded from the comparison with the reference engine.
+TieAt(sc, i, t) ==
+  LET pl == sc.plan  n == pl[i]
+      p  == Eval(sc, n.args[1], IF Inv(pl, n.args[2]) THEN sc.start ELSE t)
+      a  == Eval(sc, n.args[2], t)
+      pv == SVal(p)
+      keys == {GroupKey(n, a.vec[x].ls) : x \in 1..Len(a.vec)}
+  IN IF pv.k = "op" THEN Len(a.vec) > 1
+     ELSE IF pv.k # "i" \/ pv.v < 1 THEN FALSE
+     ELSE \E k \in keys : TopK(n.fn, pv.v, SelectSeq(a.vec, LAMBDA e : GroupKey(n, e.ls) = k)).unk
+RECURSIVE MayTie(_, _, _)
+MayTie(sc, i, t) ==
+  LET n == sc.plan[i] IN
+  \/ \E k \in 1..Len(n.args) : MayTie(sc, n.args[k], t)
+  \/ (n.op = "agg" /\ n.fn \in {"topk", "bottomk"} /\ Len(n.args) = 2 /\ TieAt(sc, i, t))
+AnyTie(sc) == LET g == Grid(sc) IN \E x \in 1..Len(g) : MayTie(sc, Len(sc.plan), g[x])
 
 \* ------------------------------------------------------------------ whole-query results
 Root(sc) == Len(sc.plan)
